@@ -105,6 +105,15 @@ def judge_after_big(j):
         return ("crash", "after-big-crashed", f"small groups after a {j['shape']} of {j['n']}: {j['error']}")
     if j["big_destroyed"] != j["big_n"]:
         return ("not-collected", "group-not-fully-destroyed", f"{j['big_destroyed']} of {j['big_n']} objects destroyed")
+    fh = j.get("former_hub", [])
+    if fh:
+        fresh = fh[0]
+        for h in fh[1:]:
+            if h["ring_destroyed"] != 2:
+                return ("not-collected", "former-hub-ring", f"a former hub of {h['leaves']} leaves in a 2-ring: {h['ring_destroyed']} of 2 destroyed")
+            for key, slack in (("bytes", 2048), ("allocs", 8)):
+                if h[key] > 2 * fresh[key] + slack:
+                    return ("nonlinear", "cost-depends-on-the-objects-past", f"a non-final release of a handle to a 2-ring member requested {fresh[key]} {key} for a fresh member and {h[key]} {key} for a member that once adopted {h['leaves']} leaves and gave them all up")
     k = len(j["after"])
     for i, a in enumerate(j["after"]):
         b = j["before"][i]
@@ -199,6 +208,7 @@ def check_c15(tier, seed, jobs):
         "doubling_series_pops_and_us_per_object_plus_adoption": ratios,
         "growth_families_us_per_object_plus_adoption": fam_ratios,
         "cost_of_small_groups_before_and_after_a_big_one": [{"big": f"{j.get('shape')} {j.get('n')}", "before": j.get("before", [])[:3], "after": j.get("after")} for j in ab_results],
+        "cost_of_a_trace_from_a_former_hub": (ab_results[0].get("former_hub") if ab_results else None),
         "fault_counts_fired": {"small_stack": len(results)},
         "components": {"real": ["cactusref (built from /repo working tree with --cfg cactusref_verif)", "hashbrown", "rustc-hash", "system allocator"], "stub": ["payload value type"]},
         "exhaustive": False,
@@ -355,6 +365,34 @@ def judge_nested(prop, args, j):
     return None
 
 
+def allocfail_scenarios(seed):
+    """Fault: the k-th allocation the library requests while the last outside handle of a
+    ring is released is refused, for every k until none is left to refuse. Dying is fine
+    (the allocation-error handler aborts); returning with the ring silently kept is not.
+    Returns (scenarios run, faults that fired, first failure or None)."""
+    ran = fired = 0
+    fail = None
+    for n, chords in ((2, 0), (5, 3), (8, 8), (40, 20)):
+        for at in range(0, 200):
+            try:
+                r = subprocess.run([D.BIN, "allocfail", "--n", str(n), "--chords", str(chords), "--at", str(at), "--seed", str(seed)], stdout=subprocess.PIPE, stderr=subprocess.PIPE, timeout=120)
+            except subprocess.TimeoutExpired:
+                return ran, fired, ((n, chords, at), ("hang", "allocation-failure-hang", f"ring of {n} (+{chords} chords), allocation #{at} refused during the last release: no result in time"))
+            ran += 1
+            j = next((json.loads(l) for l in r.stdout.decode(errors="replace").splitlines() if l.startswith("{")), None)
+            if j is None:
+                if r.returncode < 0:
+                    fired += 1
+                    continue  # the process died: acceptable
+                return ran, fired, ((n, chords, at), ("crash", "allocation-failure-scenario", f"ring of {n} (+{chords} chords), allocation #{at} refused: exit code {r.returncode} without a result"))
+            if not j["fired"]:
+                break
+            fired += 1
+            if j["destroyed"] != j["n"] and not fail:
+                fail = ((n, chords, at), ("not-collected", "allocation-failure-swallowed", f"ring of {n} (+{chords} chords), every handle a recorded adoption: allocation #{at} requested by the library during the release of the last outside handle was refused; the release returned and {j['n'] - j['destroyed']} of {j['n']} members are still alive"))
+    return ran, fired, fail
+
+
 def nested_scenarios(prop, tier, seed, jobs):
     """Teardowns nested through destructors at sizes the history simulator cannot hold,
     and the release of a group by a thread-local destructor at thread exit."""
@@ -475,6 +513,17 @@ def replay(rec, path, quiet=False):
                 print(f"violation kind={v[0]} cause={v[1]} msg={v[2]}")
                 print(f"VIOLATION property={rec['property']} replay={path}")
             return 1, {"type": "violation", "kind": v[0], "cause": v[1], "msg": v[2], "props": [rec["property"]]}
+        if not quiet:
+            print(f"replay of {path}: no violation")
+        return 0, {"type": "ok"}
+    if rec.get("engine") == "allocfail":
+        r = subprocess.run([D.BIN, "allocfail", "--n", str(rec["n"]), "--chords", str(rec["chords"]), "--at", str(rec["at"]), "--seed", str(rec.get("seed", 1))], stdout=subprocess.PIPE, stderr=subprocess.PIPE)
+        j = next((json.loads(l) for l in r.stdout.decode(errors="replace").splitlines() if l.startswith("{")), None)
+        if j and j["fired"] and j["destroyed"] != j["n"]:
+            if not quiet:
+                print(f"violation kind=not-collected cause=allocation-failure-swallowed msg={j['n'] - j['destroyed']} of {j['n']} members alive after the release returned")
+                print(f"VIOLATION property={rec['property']} replay={path}")
+            return 1, {"type": "violation", "kind": "not-collected", "cause": "allocation-failure-swallowed", "props": [rec["property"]]}
         if not quiet:
             print(f"replay of {path}: no violation")
         return 0, {"type": "ok"}
